@@ -76,9 +76,12 @@ class Container(BaseResource):
 
     def _do_put(self, event: ContainerPut) -> bool:
         new_level = self._level + event.amount
-        if new_level <= self._capacity:
-            # test the very value that is stored: capacity - level >= amount can
-            # hold in floating point although level + amount rounds above capacity
+        # Test the amount against the room that is left *and* the very value
+        # that is stored: capacity - level >= amount can hold in floating point
+        # although level + amount rounds above capacity, and level + amount <=
+        # capacity holds for every amount too small to change a full level.
+        if (self._capacity - self._level >= event.amount
+                and new_level <= self._capacity):
             self._level = new_level
             event.succeed()
             return True
